@@ -474,7 +474,15 @@ impl Report {
 
     fn run_case(env: &Env, f: CaseFn, choices: &[u32]) -> CaseResult {
         let mut src = Src::new(choices);
+        // executors created by this case run in strict-waker mode for every other choice sequence
+        detexec::set_thread_strict(choices.first().is_some_and(|c| c & 1 == 1));
         match catch(|| f(env, &mut src)) {
+            Ok(Ok(mut ok)) => {
+                if detexec::strict_was_used() {
+                    ok.labels.push("detexec:strict-wakers".to_string());
+                }
+                Ok(ok)
+            }
             Ok(r) => r,
             Err((loc, msg)) => {
                 // a panic that escapes a case function is a failure of the case. Case functions
@@ -845,15 +853,44 @@ pub mod detexec {
     struct Flag {
         woken: AtomicBool,
         wakes: AtomicUsize,
+        /// generation of the most recent poll (strict mode)
+        generation: AtomicUsize,
     }
-    impl Wake for Flag {
+
+    /// The waker handed to one poll. In strict mode only the waker of the *most recent* poll of a
+    /// task schedules it (the `Future` contract: "only the Waker from the Context passed to the
+    /// most recent call should be scheduled to receive a wakeup"); a wake-up through a waker kept
+    /// from an earlier poll is ignored, exactly as if that earlier context had gone away (the
+    /// request moved to another task, a `select!` branch was dropped, ...).
+    struct GenWaker {
+        flag: Arc<Flag>,
+        generation: usize,
+        strict: bool,
+    }
+    impl Wake for GenWaker {
         fn wake(self: Arc<Self>) {
             self.wake_by_ref();
         }
         fn wake_by_ref(self: &Arc<Self>) {
-            self.woken.store(true, Ordering::SeqCst);
-            self.wakes.fetch_add(1, Ordering::SeqCst);
+            if !self.strict || self.generation == self.flag.generation.load(Ordering::SeqCst) {
+                self.flag.woken.store(true, Ordering::SeqCst);
+            }
+            self.flag.wakes.fetch_add(1, Ordering::SeqCst);
         }
+    }
+
+    thread_local! {
+        static STRICT_DEFAULT: std::cell::Cell<bool> = const { std::cell::Cell::new(false) };
+        static STRICT_USED: std::cell::Cell<bool> = const { std::cell::Cell::new(false) };
+    }
+    /// Default for executors created on this thread (set per case by the case runner).
+    pub fn set_thread_strict(v: bool) {
+        STRICT_DEFAULT.with(|c| c.set(v));
+        STRICT_USED.with(|c| c.set(false));
+    }
+    /// Whether an executor in strict mode was created on this thread since `set_thread_strict`.
+    pub fn strict_was_used() -> bool {
+        STRICT_USED.with(std::cell::Cell::get)
     }
 
     /// A set of tasks polled only when the harness says so. A task is *runnable* when it has
@@ -865,15 +902,20 @@ pub mod detexec {
         tasks: Vec<Option<Pin<Box<dyn Future<Output = ()> + 'a>>>>,
         flags: Vec<Arc<Flag>>,
         pub polls: usize,
+        strict: bool,
     }
 
     impl<'a> DetExec<'a> {
         pub fn new() -> Self {
-            Self { tasks: vec![], flags: vec![], polls: 0 }
+            let strict = STRICT_DEFAULT.with(std::cell::Cell::get);
+            if strict {
+                STRICT_USED.with(|c| c.set(true));
+            }
+            Self { tasks: vec![], flags: vec![], polls: 0, strict }
         }
         pub fn spawn(&mut self, f: impl Future<Output = ()> + 'a) -> usize {
             self.tasks.push(Some(Box::pin(f)));
-            self.flags.push(Arc::new(Flag { woken: AtomicBool::new(true), wakes: AtomicUsize::new(0) }));
+            self.flags.push(Arc::new(Flag { woken: AtomicBool::new(true), wakes: AtomicUsize::new(0), generation: AtomicUsize::new(0) }));
             self.tasks.len() - 1
         }
         pub fn len(&self) -> usize {
@@ -898,7 +940,8 @@ pub mod detexec {
         pub fn poll(&mut self, id: usize) -> bool {
             let Some(fut) = self.tasks[id].as_mut() else { return true };
             self.flags[id].woken.store(false, Ordering::SeqCst);
-            let waker = Waker::from(Arc::clone(&self.flags[id]));
+            let generation = self.flags[id].generation.fetch_add(1, Ordering::SeqCst) + 1;
+            let waker = Waker::from(Arc::new(GenWaker { flag: Arc::clone(&self.flags[id]), generation, strict: self.strict }));
             let mut cx = Context::from_waker(&waker);
             self.polls += 1;
             match fut.as_mut().poll(&mut cx) {
